@@ -22,6 +22,12 @@ def cases_for(ctx, n):
         traces = sorted([r, t] for r in ranks for t in TYPES + (UTYPES if k["expr"].get("plus") else []))
         base = {"kid": 0, "kernel": k, "collect": 1, "traces": traces, "abort": 0}
         seq = [dict(base, ncache=0), dict(base, ncache=2), dict(base, ncache=3, consume=1), dict(base, ncache=0, consume=1)]
+        # ... and with only a subset of the (rank, type) pairs registered: what one trace holds does not depend on which other traces are collected
+        sub = [x for x in traces if rng.random() < 0.4]
+        if sub:
+            seq.append(dict(base, traces=sub, ncache=0))
+            one = [rng.choice(traces)]
+            seq.append(dict(base, traces=one, ncache=rng.choice([0, 2])))
         cases.append({"sessions": seq})
     return cases
 
